@@ -42,7 +42,8 @@ Record cstream := mkCS {
   cs_forgotten : bool;    (* removed from cc.streams *)
   cs_in : inflow;         (* cs.inflow *)
   cs_buf : Z;             (* bytes in cs.bufPipe not yet read by the application *)
-  cs_app_closed : bool    (* response body closed by the application *)
+  cs_app_closed : bool;   (* response body closed by the application *)
+  cs_read_failed : bool   (* cs.readErr set: Read returned "more than declared Content-Length" *)
 }.
 
 Record conn := mkConn {
@@ -105,28 +106,31 @@ Definition active_count (l : list cstream) : Z :=
 
 Definition cs_set_flow (s : cstream) (w : Z) : cstream :=
   mkCS (cs_id s) w (cs_end_sent s) (cs_reset s) (cs_peer_ended s) (cs_peer_reset s) (cs_forgotten s)
-       (cs_in s) (cs_buf s) (cs_app_closed s).
+       (cs_in s) (cs_buf s) (cs_app_closed s) (cs_read_failed s).
 Definition cs_set_end_sent (s : cstream) : cstream :=
   mkCS (cs_id s) (cs_flow s) true (cs_reset s) (cs_peer_ended s) (cs_peer_reset s) (cs_forgotten s)
-       (cs_in s) (cs_buf s) (cs_app_closed s).
+       (cs_in s) (cs_buf s) (cs_app_closed s) (cs_read_failed s).
 Definition cs_set_reset (s : cstream) : cstream :=
   mkCS (cs_id s) (cs_flow s) (cs_end_sent s) true (cs_peer_ended s) (cs_peer_reset s) true
-       (cs_in s) (cs_buf s) (cs_app_closed s).
+       (cs_in s) (cs_buf s) (cs_app_closed s) (cs_read_failed s).
 Definition cs_set_forgotten (s : cstream) : cstream :=
   mkCS (cs_id s) (cs_flow s) (cs_end_sent s) (cs_reset s) (cs_peer_ended s) (cs_peer_reset s) true
-       (cs_in s) (cs_buf s) (cs_app_closed s).
+       (cs_in s) (cs_buf s) (cs_app_closed s) (cs_read_failed s).
 Definition cs_set_peer_ended (s : cstream) : cstream :=
   mkCS (cs_id s) (cs_flow s) (cs_end_sent s) (cs_reset s) true (cs_peer_reset s) (cs_forgotten s)
-       (cs_in s) (cs_buf s) (cs_app_closed s).
+       (cs_in s) (cs_buf s) (cs_app_closed s) (cs_read_failed s).
 Definition cs_set_peer_reset (s : cstream) : cstream :=
   mkCS (cs_id s) (cs_flow s) (cs_end_sent s) (cs_reset s) (cs_peer_ended s) true (cs_forgotten s)
-       (cs_in s) (cs_buf s) (cs_app_closed s).
+       (cs_in s) (cs_buf s) (cs_app_closed s) (cs_read_failed s).
 Definition cs_set_recv (s : cstream) (f : inflow) (buf : Z) : cstream :=
   mkCS (cs_id s) (cs_flow s) (cs_end_sent s) (cs_reset s) (cs_peer_ended s) (cs_peer_reset s) (cs_forgotten s)
-       f buf (cs_app_closed s).
+       f buf (cs_app_closed s) (cs_read_failed s).
+Definition cs_set_read_failed (s : cstream) : cstream :=
+  mkCS (cs_id s) (cs_flow s) (cs_end_sent s) (cs_reset s) (cs_peer_ended s) (cs_peer_reset s) (cs_forgotten s)
+       (cs_in s) (cs_buf s) (cs_app_closed s) true.
 Definition cs_set_app_closed (s : cstream) : cstream :=
   mkCS (cs_id s) (cs_flow s) (cs_end_sent s) (cs_reset s) (cs_peer_ended s) (cs_peer_reset s) (cs_forgotten s)
-       (cs_in s) 0 true.
+       (cs_in s) 0 true (cs_read_failed s).
 
 Definition set_cstreams (c : conn) (l : list cstream) : conn :=
   mkConn (cc_flow c) (cc_max_frame c) (cc_max_streams c) (cc_init_win c) (cc_next_id c) l
@@ -196,7 +200,7 @@ Definition conn_step (c : conn) (e : cev) : conn * list ev :=
          && (cc_prio_len c <? cc_max_frame c) && (cc_next_id c <? 2147483647) then
         let sid := cc_next_id c in
         let s := mkCS sid (snd (out_add_stream 0 (cc_flow c) (wrap32 (cc_init_win c)))) es false false false false
-                      (in_init (mkIn 0 0) (cc_stream_in c)) 0 false in
+                      (in_init (mkIn 0 0) (cc_stream_in c)) 0 false false in
         (mkConn (cc_flow c) (cc_max_frame c) (cc_max_streams c) (cc_init_win c) (sid + 2) (s :: cc_streams c)
                 (cc_seen_settings c) (cc_dead c) (cc_in c) (cc_prio_len c) (cc_stream_in c),
          cl (hdr_frames sid hlen (cc_max_frame c) (cc_prio_len c) es))
@@ -300,13 +304,16 @@ Definition conn_step (c : conn) (e : cev) : conn * list ev :=
   | EAppRead sid n eof =>
       match find_cs sid (cc_streams c) with
       | Some s =>
-          (* bufPipe.Read returns an error only once the buffer is empty, and the pipe carries
-             an error only after END_STREAM / RST_STREAM: eof needs one of the two *)
-          if (1 <=? n) && (n <=? cs_buf s) && negb (cs_app_closed s)
-             && (negb eof || cs_peer_ended s || cs_peer_reset s) then
+          (* bufPipe.Read hands out data without an error; eof = the one case in which Read
+             returns data AND an error: more than the declared Content-Length arrived
+             (cs.readErr is set, the stream is aborted; since fix ad75eea the connection
+             credit of everything taken out of the pipe is returned, the stream's is not) *)
+          if (1 <=? n) && (n <=? cs_buf s) && negb (cs_app_closed s) && negb (cs_read_failed s) then
             let '(rc, f2) := in_add_ret (cc_in c) n in
             let '(rs, g2) := if eof then (0, cs_in s) else in_add_ret (cs_in s) n in
-            (set_cstreams (set_cin c f2) (upd_cs sid (fun s0 => cs_set_recv s0 g2 (cs_buf s - n)) (cc_streams c)),
+            (set_cstreams (set_cin c f2)
+               (upd_cs sid (fun s0 => let s1 := cs_set_recv s0 g2 (cs_buf s - n) in if eof then cs_set_read_failed s1 else s1)
+                       (cc_streams c)),
              wu 0 rc ++ wu sid rs)
           else (c, [])
       | None => (c, [])
